@@ -13,4 +13,6 @@ t0 = time.time()
 probs, stats, hs, jobs = voxcamp.campaign(ctx, int(opts.get("jobs", 120)))
 for p in probs[:40]:
     print(p.kind.upper(), p.cat, p.job.name, "line", p.line, "|", p.text[:300], "| impl:", (p.impl or "")[:160], "| model:", (p.model or "")[:160])
+import collections
+print("by kind/category:", dict(collections.Counter("%s:%s" % (p.kind, p.cat) for p in probs)))
 print(dict(stats), "problems=%d" % len(probs), "wall=%.1fs" % (time.time() - t0))
